@@ -43,7 +43,12 @@ pub fn nest_variants(r: &mut Rng, events: &mut Vec<Event>) {
             text.lines.insert(at, Line::Raw(format!("{} {}", NEST_KW, r.below(50))));
             text.crlf.insert(at.min(text.crlf.len()), false);
         }
-        let (dl, dtx) = r.pick(&donors).clone();
+        let (dl, dtx) = if r.chance(1, 3) {
+            // a text in the OTHER language (plain arithmetic, nothing to judge): what language the outer
+            // evaluation reads its remaining lines in must not depend on it
+            let outer_lang = match &op { Op::Execute { lang, .. } => lang.clone(), _ => lang_of.get(&ev.actor).cloned().unwrap_or_else(|| "en".into()) };
+            (if outer_lang == "tr" { "en".to_string() } else { "tr".to_string() }, crate::trace::TextSpec::raw(&["12 + 30", "2 * 21"]))
+        } else { r.pick(&donors).clone() };
         let dt: i128 = match r.below(5) { 0 | 1 => 0, 2 => NS, 3 => (86400 * NS - t.rem_euclid(86400 * NS)) + NS, _ => 366 * 86400 * NS };
         // stay inside the calendar the models cover
         let dt = crate::gen::clocks::clamp_instant(t + dt) - t;
